@@ -79,6 +79,29 @@ pub fn c16(tier: &str, seed: u64) -> Vec<Case> {
         }
         v.push(c);
     }
+    // values in states the public fields allow but no parser produces: NSEC windows out of order or
+    // repeated, OPT option codes repeated (the copy must be the same value: equal, same hash, same bytes)
+    for k in 0..(if thorough { 400 } else { 40 }) {
+        let rd = if k % 4 == 3 {
+            let n = g.rng.range(2, 4);
+            RData::OPT(rdata::OPT { opt_codes: (0..n).map(|_| rdata::OPTCode { code: g.rng.below(3) as u16, data: g.rng.bytes(2).into() }).collect(), udp_packet_size: 512, version: 0 })
+        } else {
+            let n = g.rng.range(2, 4);
+            let mut maps: Vec<rdata::TypeBitMap> = (0..n).map(|_| { let l = g.rng.range(1, 4) as usize; rdata::TypeBitMap { window_block: g.rng.below(6) as u8, bitmap: g.rng.bytes(l).into() } }).collect();
+            if k % 2 == 0 { maps.sort_by_key(|m| std::cmp::Reverse(m.window_block)); }
+            RData::NSEC(rdata::NSEC { next_name: g.name(), type_bit_maps: maps })
+        };
+        let r = ResourceRecord::new(g.name(), CLASS::IN, 5, rd);
+        let owned = r.clone().into_owned();
+        let mut c = Case::new(format!("owned.rr {}", text::rr(&r)), text::rr(&owned)).tag("unnormalised-value");
+        if text::rr(&owned) != text::rr(&r) { c = c.fail("into-owned-field", "a value with unordered / repeated entries is changed by into_owned".into()); }
+        if !(owned == r) || owned.rdata.clone().into_owned() != r.rdata { c = c.fail("into-owned-eq", "a value with unordered / repeated entries: the owned copy does not compare equal".into()); }
+        if h(&owned) != h(&r) || h(&owned.rdata) != h(&r.rdata) { c = c.fail("owned-hash", "a value with unordered / repeated entries: the owned copy hashes differently".into()); }
+        let mut set = HashSet::new();
+        set.insert(r.clone());
+        if !set.contains(&owned) { c = c.fail("hashset-lookup", "the owned copy is not found in a set holding the original".into()); }
+        v.push(c);
+    }
     for (x, y) in [("Example.com", "example.com"), ("a.B.c", "a.b.c"), ("LOCAL", "local"), ("x.y", "x.y")] {
         let (na, nb) = (Name::new_unchecked(x).into_owned(), Name::new_unchecked(y).into_owned());
         let (eq, heq) = (na == nb, h(&na) == h(&nb));
